@@ -179,8 +179,49 @@ class OnceLoader:
         return self._workload
 
 
-def make_loader(workload):
+class BatchedLoader:
+    """Hands the task graphs over in several UPDATE_WORKLOAD batches, adding to the SAME Workload object on every call
+    (as AlibabaLoader does): with an update interval I the call at time T releases the graphs with release time < T + I;
+    without one (the next update then happens one microsecond after the latest release) the next `count` graphs in
+    release order plus all the graphs released at the same instant as the last of them.  A call that finds nothing new
+    returns the unchanged Workload (not None) while graphs remain, None afterwards."""
+
+    def __init__(self, workload, flags, interval, count):
+        from utils import EventTime
+        from workload import Workload
+
+        self._us = EventTime.Unit.US
+        self._pending = sorted(workload.task_graphs.values(), key=lambda tg: (tg.release_time.to(self._us).time, tg.name))
+        self._out = Workload.empty(flags)
+        self._interval = interval
+        self._count = max(1, count)
+
+    def get_next_workload(self, current_time):
+        if not self._pending:
+            return None
+        now = current_time.to(self._us).time
+        rel = lambda tg: tg.release_time.to(self._us).time  # noqa: E731
+        if self._interval > 0:
+            n = sum(1 for tg in self._pending if rel(tg) < now + self._interval)
+        else:
+            n = min(self._count, len(self._pending))
+            while n < len(self._pending) and rel(self._pending[n]) == rel(self._pending[n - 1]):
+                n += 1
+        batch, self._pending = self._pending[:n], self._pending[n:]
+        for tg in batch:
+            self._out.add_task_graph(tg)
+        return self._out
+
+
+def make_loader(workload, world=None, flags=None, fl=None):
     from data import BaseWorkloadLoader
+
+    spec = (world or {}).get("loader")
+    if spec:
+        class _B(BatchedLoader, BaseWorkloadLoader):
+            pass
+
+        return _B(workload, flags, fl["update_interval"], spec.get("count", 1))
 
     class _L(OnceLoader, BaseWorkloadLoader):
         pass
@@ -260,14 +301,15 @@ def build(world):
                     t._intended_release_time = us(rel)
     pools = build_pools(world)
     sched = build_scheduler(world, flags, sc)
-    loader = make_loader(workload)
+    loader = make_loader(workload, world, flags, fl)
     return pools, sched, loader, flags, fl, sc
 
 
 # ---------------------------------------------------------------------------
 # generators
 
-SHAPES = ["single", "chain2", "chain3", "fork", "join", "diamond", "skip", "cond", "cond_uneven", "two_cond", "disconnected"]
+SHAPES = ["single", "chain2", "chain3", "fork", "join", "diamond", "skip", "cond", "cond_uneven", "two_cond", "disconnected",
+          "uneven_join", "rand_dag", "rand_dag"]
 
 
 def shape_jobs(shape, rnd, nprof):
@@ -325,6 +367,25 @@ def shape_jobs(shape, rnd, nprof):
         ]
     if shape == "disconnected":
         return [J("A", ["B"]), J("B"), J("C")]
+    if shape == "uneven_join":
+        # a join reached through paths of unequal length, with a descendant: the frontier's estimate of M (and G) must be
+        # the one propagated along the LONGER path even when the shorter one is expanded first
+        first = [J("P1", ["M"]), J("P2", ["X1"])]
+        if rnd.random() < 0.5:
+            first.reverse()
+        return first + [J("X1", ["X2"]), J("X2", ["M"]), J("M", ["G"]), J("G")]
+    if shape == "rand_dag":
+        # a random DAG on 4..7 nodes (edges i -> j for i < j), children lists in random order, nodes inserted in random order
+        n = rnd.randint(4, 7)
+        names = [f"N{i}" for i in range(n)]
+        p = rnd.choice([0.25, 0.4, 0.6])
+        ch = {i: [j for j in range(i + 1, n) if rnd.random() < p] for i in range(n)}
+        for i in ch:
+            rnd.shuffle(ch[i])
+        order = list(range(n))
+        if rnd.random() < 0.5:
+            rnd.shuffle(order)
+        return [J(names[i], [names[j] for j in ch[i]]) for i in order]
     raise ValueError(shape)
 
 
@@ -368,11 +429,6 @@ def gen_world(rnd: random.Random, *, kinds=("edf", "fifo", "lsf", "hostile"), ma
     # past" when the scheduler runtime is non-zero (see known findings): their worlds use 0
     sched = {"kind": kind, "runtime": rnd.choice([0, 0, 1, 2]) if kind == "hostile" else 0,
              "enforce": rnd.random() < 0.3 and kind in ("edf", "fifo")}
-    if kind == "scripted":
-        from .hostile import ScriptedScheduler
-
-        return ScriptedScheduler(sc["script"], runtime=rt, lookahead=la, retract_schedules=sc["retract"],
-                                 release_taskgraphs=sc["rtg"], _flags=flags)
     if kind == "hostile":
         sched.update({"lookahead": rnd.choice([0, 0, 3, 10]), "retract": rnd.random() < 0.4, "rtg": rnd.random() < 0.3,
                       "cancel_rate": rnd.choice([0.0, 0.1, 0.3]), "batching": rnd.random() < 0.3})
@@ -384,7 +440,15 @@ def gen_world(rnd: random.Random, *, kinds=("edf", "fifo", "lsf", "hostile"), ma
         "timeout": rnd.choice([80, 150, 300]),
         "variance": rnd.choice([0, 0, 0, 50]),
     }
-    return {"profiles": profiles, "graphs": graphs, "pools": pools, "sched": sched, "flags": flags, "seed": rnd.randrange(10**6)}
+    w = {"profiles": profiles, "graphs": graphs, "pools": pools, "sched": sched, "flags": flags, "seed": rnd.randrange(10**6)}
+    # conditionals resolved at submission (C07): the branch that runs is fixed when the task graph is created
+    if any(j.get("cond") for g in graphs for j in g["jobs"]) and rnd.random() < 0.35:
+        flags["resolve_conditionals"] = True
+    # the workload arrives in several UPDATE_WORKLOAD batches (loaders that add to the same Workload on every call)
+    if rnd.random() < 0.2:
+        w["loader"] = {"kind": "batched", "count": rnd.randint(1, 2)}
+        flags["update_interval"] = rnd.choice([-1, -1, 3, 7])
+    return w
 
 
 def max_demand_fits(world):
@@ -579,6 +643,44 @@ def directed_worlds():
             {"at": 30, "decs": [{"do": "evict", "profile": "M0", "pool": 1, "time": 31}]}]},
         "flags": {"timeout": 100, "frequency": 2}, "seed": 1,
     })
+    # the frontier's completion estimates through a join reached by paths of unequal length: P1(10) -> M and
+    # P2(100) -> X1 -> X2 -> M(20) -> G; an unrelated task O is released at t=50 and triggers an invocation while the
+    # long path still runs: G (and M) must not be offered (lookahead 0), and with a lookahead exactly those tasks whose
+    # estimate along the LONGER path is inside it
+    uj_jobs = [{"name": "P1", "profile": 0, "children": ["M"]}, {"name": "P2", "profile": 1, "children": ["X1"]},
+               {"name": "X1", "profile": 0, "children": ["X2"]}, {"name": "X2", "profile": 0, "children": ["M"]},
+               {"name": "M", "profile": 2, "children": ["G"]}, {"name": "G", "profile": 0}]
+    for nm, sched in (("uneven_join_frontier_edf", {"kind": "edf", "runtime": 0}),
+                      ("uneven_join_frontier_lookahead", {"kind": "hostile", "runtime": 0, "cancel_rate": 0.0, "lookahead": 25}),
+                      ("uneven_join_frontier_rtg", {"kind": "hostile", "runtime": 1, "cancel_rate": 0.0, "lookahead": 40, "rtg": True, "retract": True})):
+        out.append({
+            "name": nm, "profiles": [P(10), P(100), P(20)],
+            "graphs": [{"name": "G0", "jobs": uj_jobs, "policy": {"type": "fixed", "period": 1, "n": 1, "start": 0}, "dv": [0, 0]},
+                       {"name": "G1", "jobs": [{"name": "O", "profile": 0}], "policy": {"type": "fixed", "period": 25, "n": 5, "start": 50}, "dv": [0, 0]}],
+            "pools": [[[I("gpu", "g1", 3)]]], "sched": sched, "flags": {"timeout": 400, "frequency": 7 if sched["kind"] != "edf" else -1}, "seed": 1,
+        })
+    # conditionals resolved at submission: nested conditionals, three invocations (the alternating resolver picks
+    # different branches), a plan-ahead policy that is offered the unresolved branches too
+    for nm, sched in (("resolved_conditionals_edf", {"kind": "edf", "runtime": 0}),
+                      ("resolved_conditionals_planahead", {"kind": "hostile", "runtime": 0, "cancel_rate": 0.0, "lookahead": 12, "rtg": True})):
+        out.append({
+            "name": nm, "profiles": [P(2), P(3)],
+            "graphs": [{"name": "G0", "jobs": shape_jobs("two_cond", random.Random(4), 2), "policy": {"type": "fixed", "period": 4, "n": 3, "start": 0}, "dv": [0, 0]},
+                       {"name": "G1", "jobs": shape_jobs("cond_uneven", random.Random(5), 2), "policy": {"type": "fixed", "period": 5, "n": 2, "start": 1}, "dv": [0, 0]}],
+            "pools": [[[I("gpu", "g1", 2)]]], "sched": sched, "flags": {"timeout": 400, "resolve_conditionals": True}, "seed": 7,
+        })
+    # the workload arrives in several UPDATE_WORKLOAD batches: with an update interval (incl. an update that brings
+    # nothing new) and without one (next update one microsecond after the latest release)
+    for nm, fl in (("batched_updates_interval", {"update_interval": 4}), ("batched_updates_no_interval", {"update_interval": -1})):
+        out.append({
+            "name": nm, "profiles": [P(2), P(3)],
+            "graphs": [{"name": "G0", "jobs": [{"name": "A", "profile": 0, "children": ["B"]}, {"name": "B", "profile": 1}],
+                        "policy": {"type": "fixed", "period": 5, "n": 4, "start": 0}, "dv": [0, 0]},
+                       {"name": "G1", "jobs": [{"name": "C", "profile": 0}], "policy": {"type": "fixed", "period": 10, "n": 2, "start": 5}, "dv": [0, 0]},
+                       {"name": "G2", "jobs": [{"name": "D", "profile": 1}], "policy": {"type": "closed_loop", "conc": 1, "n": 3, "start": 17}, "dv": [0, 0]}],
+            "loader": {"kind": "batched", "count": 2},
+            "pools": [[[I("gpu", "g1", 1)]]], "sched": {"kind": "fifo", "runtime": 0}, "flags": dict(fl, timeout=2000, expect_all_done=True), "seed": 2,
+        })
     for w in out:
         w.setdefault("flags", {})
     return out
